@@ -17,6 +17,7 @@ TRACE = {
     "C15": (["P_C15"], []),
     "C16": (["P_C16"], []),
     "C17": (["P_C17"], []),
+    "C19": (["P_C19"], []),
 }
 
 # walks / steps per tier
@@ -63,6 +64,12 @@ B3 = {
                  quick='MaxN = 4\n  Reps = 2\n  MaxUs = {"0", "1", "2", "50%"}\n  MaxSFs = {"0", "1"}\n  Variants <- VariantsQuick',
                  thorough='MaxN = 5\n  Reps = 3\n  MaxUs = {"0", "1", "2", "3", "25%", "50%", "100%"}\n  MaxSFs = {"0", "1", "50%"}\n  Variants <- VariantsThorough',
                  props=["P_C03", "P_C09", "P_C08", "P_C01"])],
+}
+
+# ---- function-level conformance: generator module, judgement module, constants per tier ----
+FN = {
+    "C16": [dict(gen="Gen_Defaults", judge="Judge_Defaults", quick="Full = FALSE", thorough="Full = TRUE")],
+    "C20": [dict(gen="Gen_Labels", judge="Judge_Labels", quick="MaxLen = 2\n  MaxKeys = 2", thorough="MaxLen = 2\n  MaxKeys = 3")],
 }
 
 RULES = {
